@@ -434,6 +434,88 @@ mod stubs {
 #[cfg(all(kani, futures_buffered_verif_model))]
 pub use stubs::{clone as stub_clone, drop as stub_drop, wake as stub_wake, wake_by_ref as stub_wake_by_ref};
 
+/// Layer W (real `waker_list.rs`): the child entries are reached through the
+/// real vtable, read via a `#[repr(C)]` mirror of `RawWakerVTable` (its field
+/// order is checked by the `vt_mirror_selftest` harness).
+#[cfg(all(kani, not(futures_buffered_verif_model)))]
+mod stubs_real {
+    use super::*;
+
+    #[repr(C)]
+    pub struct VtMirror {
+        pub clone: unsafe fn(*const ()) -> RawWaker,
+        pub wake: unsafe fn(*const ()),
+        pub wake_by_ref: unsafe fn(*const ()),
+        pub drop: unsafe fn(*const ()),
+    }
+
+    pub fn mirror(w: &Waker) -> &'static VtMirror {
+        unsafe { &*(w.vtable() as *const RawWakerVTable as *const VtMirror) }
+    }
+
+    fn enter() {
+        unsafe {
+            if CHILD_DEPTH > 0 {
+                assert!(false, "STUB:nested child waker op");
+                kani::assume(false);
+            }
+            CHILD_DEPTH += 1;
+        }
+    }
+    fn leave() {
+        unsafe { CHILD_DEPTH -= 1 }
+    }
+
+    pub fn wake_by_ref(w: &Waker) {
+        if is_task(w) {
+            unsafe { t_wake_by_ref(w.data()) }
+        } else {
+            enter();
+            unsafe { (mirror(w).wake_by_ref)(w.data()) };
+            leave();
+        }
+    }
+    pub fn wake(w: Waker) {
+        let w = ManuallyDrop::new(w);
+        if is_task(&w) {
+            unsafe { t_wake(w.data()) }
+        } else {
+            enter();
+            unsafe { (mirror(&w).wake)(w.data()) };
+            leave();
+        }
+    }
+    pub fn clone(w: &Waker) -> Waker {
+        if is_task(w) {
+            unsafe { Waker::from_raw(t_clone(w.data())) }
+        } else {
+            unsafe { Waker::from_raw((mirror(w).clone)(w.data())) }
+        }
+    }
+    pub fn drop(w: &mut Waker) {
+        if is_task(w) {
+            unsafe { t_drop(w.data()) }
+        } else {
+            enter();
+            unsafe { (mirror(w).drop)(w.data()) };
+            leave();
+        }
+    }
+
+    /// the mirror reads the four entries in the order clone, wake, wake_by_ref, drop
+    pub fn selftest() {
+        let w = task_waker(0);
+        let m = mirror(&w);
+        assert!(m.clone as usize == t_clone as usize, "STUB:vtable mirror (clone)");
+        assert!(m.wake as usize == t_wake as usize, "STUB:vtable mirror (wake)");
+        assert!(m.wake_by_ref as usize == t_wake_by_ref as usize, "STUB:vtable mirror (wake_by_ref)");
+        assert!(m.drop as usize == t_drop as usize, "STUB:vtable mirror (drop)");
+        core::mem::forget(w);
+    }
+}
+#[cfg(all(kani, not(futures_buffered_verif_model)))]
+pub use stubs_real::{clone as stub_clone, drop as stub_drop, selftest as vt_mirror_selftest, wake as stub_wake, wake_by_ref as stub_wake_by_ref};
+
 #[allow(unused)]
 fn _keep(_: ManuallyDrop<u8>) {}
 
